@@ -122,7 +122,10 @@ def run(ctx):
               cases.append(c)
               ctx.nontriv(("tree", n, pk.point.parity, qg.parity))
               for k, lf in enumerate(leaves):
-                  cb = outcome(tree.control_block, pk.point, lf)
+                  # every other call passes an equal-but-not-identical leaf and internal key (a caller that rebuilt them from bytes)
+                  lf_arg = lf if (k + keyno) % 2 == 0 else TR.TapLeaf(Script.parse(raw=lf.tap_script.raw_serialize()), lf.tapleaf_version)
+                  pt_arg = pk.point if (k + keyno) % 2 == 0 else S256Point.parse(pk.point.sec())
+                  cb = outcome(tree.control_block, pt_arg, lf_arg)
                   if cb[0] != "ok" or cb[1] is None:
                       ctx.violation("leafcb:control_block-fails", "leaf %d of %d: %s" % (k, n, cb), {"kind": "leafcb", "n": n, "k": k})
                       continue
